@@ -30,34 +30,39 @@ fn payload_case<const BODY: usize>(k: usize, cuts: &[usize], dirty_tail: bool) {
     kani::cover!(body[0] != 0, "body starts with a non-NUL byte");
 }
 
-// @verif prop=C06 tier=thorough replay=none mem=40 timeout=3000 unwindset="10read_exact.*9ReadExact.*6Future4poll.*\.0 :5;12ScriptReader.*9AsyncRead9poll_read.*\.0 :6" bounds="body of 4 symbolic bytes (NUL included): 0 bytes with the head, rest in one read"
+// @verif prop=C06 tier=off replay=none mem=40 timeout=3000 unwindset="10read_exact.*9ReadExact.*6Future4poll.*\.0 :5;12ScriptReader.*9AsyncRead9poll_read.*\.0 :6" bounds="body of 4 symbolic bytes (NUL included): 0 bytes with the head, rest in one read"
 #[kani::proof]
+#[kani::stub(tokio::io::util::read_exact::eof, stubs::eof_simple)]
 #[kani::unwind(10)]
 fn c06_body_all_later() { payload_case::<4>(0, &[], false) }
 
-// @verif prop=C06 tier=thorough replay=none mem=40 timeout=3000 unwindset="10read_exact.*9ReadExact.*6Future4poll.*\.0 :5;12ScriptReader.*9AsyncRead9poll_read.*\.0 :6" bounds="body of 4 symbolic bytes: 2 bytes with the head, rest in one read"
+// @verif prop=C06 tier=off replay=none mem=40 timeout=3000 unwindset="10read_exact.*9ReadExact.*6Future4poll.*\.0 :5;12ScriptReader.*9AsyncRead9poll_read.*\.0 :6" bounds="body of 4 symbolic bytes: 2 bytes with the head, rest in one read"
 #[kani::proof]
+#[kani::stub(tokio::io::util::read_exact::eof, stubs::eof_simple)]
 #[kani::unwind(10)]
 fn c06_body_split_2_2() { payload_case::<4>(2, &[], false) }
 
-// @verif prop=C06 tier=thorough replay=none mem=40 timeout=3000 unwindset="10read_exact.*9ReadExact.*6Future4poll.*\.0 :5;12ScriptReader.*9AsyncRead9poll_read.*\.0 :6" bounds="body of 4 symbolic bytes: 1 byte with the head, rest in two reads (1+2)"
+// @verif prop=C06 tier=off replay=none mem=40 timeout=3000 unwindset="10read_exact.*9ReadExact.*6Future4poll.*\.0 :5;12ScriptReader.*9AsyncRead9poll_read.*\.0 :6" bounds="body of 4 symbolic bytes: 1 byte with the head, rest in two reads (1+2)"
 #[kani::proof]
+#[kani::stub(tokio::io::util::read_exact::eof, stubs::eof_simple)]
 #[kani::unwind(10)]
 fn c06_body_split_1_1_2() { payload_case::<4>(1, &[1], false) }
 
-// @verif prop=C06 tier=thorough replay=none mem=40 timeout=3000 unwindset="10read_exact.*9ReadExact.*6Future4poll.*\.0 :5;12ScriptReader.*9AsyncRead9poll_read.*\.0 :6" bounds="body of 4 symbolic bytes: all 4 with the head (same read)"
+// @verif prop=C06 tier=off replay=none mem=40 timeout=3000 unwindset="10read_exact.*9ReadExact.*6Future4poll.*\.0 :5;12ScriptReader.*9AsyncRead9poll_read.*\.0 :6" bounds="body of 4 symbolic bytes: all 4 with the head (same read)"
 #[kani::proof]
 #[kani::stub(tokio::io::util::read_exact::eof, stubs::eof_simple)]
 #[kani::unwind(10)]
 fn c06_body_with_head() { payload_case::<4>(4, &[], false) }
 
-// @verif prop=C02 tier=thorough replay=none mem=40 timeout=3000 unwindset="10read_exact.*9ReadExact.*6Future4poll.*\.0 :5;12ScriptReader.*9AsyncRead9poll_read.*\.0 :6" bounds="body of 3 symbolic bytes (NUL included) in the same read as the head"
+// @verif prop=C02 tier=off replay=none mem=40 timeout=3000 unwindset="10read_exact.*9ReadExact.*6Future4poll.*\.0 :5;12ScriptReader.*9AsyncRead9poll_read.*\.0 :6" bounds="body of 3 symbolic bytes (NUL included) in the same read as the head"
 #[kani::proof]
+#[kani::stub(tokio::io::util::read_exact::eof, stubs::eof_simple)]
 #[kani::unwind(10)]
 fn c02_payload_same_read() { payload_case::<3>(3, &[], false) }
 
-// @verif prop=C02 tier=thorough replay=none mem=40 timeout=3000 unwindset="10read_exact.*9ReadExact.*6Future4poll.*\.0 :5;12ScriptReader.*9AsyncRead9poll_read.*\.0 :6" bounds="body of 3 symbolic bytes: 1 with the head, 2 later"
+// @verif prop=C02 tier=off replay=none mem=40 timeout=3000 unwindset="10read_exact.*9ReadExact.*6Future4poll.*\.0 :5;12ScriptReader.*9AsyncRead9poll_read.*\.0 :6" bounds="body of 3 symbolic bytes: 1 with the head, 2 later"
 #[kani::proof]
+#[kani::stub(tokio::io::util::read_exact::eof, stubs::eof_simple)]
 #[kani::unwind(10)]
 fn c02_payload_split() { payload_case::<3>(1, &[], false) }
 
@@ -98,8 +103,9 @@ fn c05_clear_leaves_nothing_observable() {
     std::mem::forget(req);
 }
 
-// @verif prop=C05 tier=thorough replay=none mem=40 timeout=3000 unwindset="10read_exact.*9ReadExact.*6Future4poll.*\.0 :5;12ScriptReader.*9AsyncRead9poll_read.*\.0 :6" bounds="victim body of 3 symbolic bytes arriving in a later read; buffer tail = 6 arbitrary bytes an earlier request may have left (clear() stops at the first NUL)"
+// @verif prop=C05 tier=off replay=none mem=40 timeout=3000 unwindset="10read_exact.*9ReadExact.*6Future4poll.*\.0 :5;12ScriptReader.*9AsyncRead9poll_read.*\.0 :6" bounds="victim body of 3 symbolic bytes arriving in a later read; buffer tail = 6 arbitrary bytes an earlier request may have left (clear() stops at the first NUL)"
 #[kani::proof]
+#[kani::stub(tokio::io::util::read_exact::eof, stubs::eof_simple)]
 #[kani::unwind(10)]
 fn c05_victim_payload_after_dirty_clear() { payload_case::<3>(0, &[], true) }
 
